@@ -56,7 +56,7 @@ Proof. intros rc lk o. exact (nothing_to_scan_fails the_params find c_START_REFE
 Example C16_nonvacuous :
   let f := utf8_encode [105;110;102;111;33;40;34;98;34;41;59] in
   let cfg := mkConfig false [([108;111;103], [105;110;102;111])] in
-  let o := mkOracle None None (fun _ => false) (fun _ => false) (fun _ => FNone) false in
+  let o := mkOracle None None (fun _ => false) (fun _ => false) (fun _ => FNone) LkOk in
   w_lock (after (mkRunCfg cfg true) [f] LAbsent o) = LValid 2 /\
   w_lock (after (mkRunCfg cfg false) [f] (LValid 9) o) = LValid 9 /\
   map id3 (ro_ids (edit (mkRunCfg cfg false) [f] (LValid 9) o)) = [1] /\
